@@ -445,18 +445,26 @@ impl ThreadPoolState {
 
     fn wait_for_scope_completion(&self, done: &Receiver<()>) {
         if !is_background_worker_thread() {
+            #[cfg(egglog_verif)]
+            crate::verif::log(108, 0, 0);
             receive_scope_completion(done);
             return;
         }
 
         let Some(_guard) = InlineScopeHelpGuard::try_enter() else {
+            #[cfg(egglog_verif)]
+            crate::verif::log(108, 2, 0);
             let _backup = BackupWorker::spawn(self);
             receive_scope_completion(done);
             return;
         };
 
         let receiver = self.receiver.clone();
+        #[cfg(egglog_verif)]
+        crate::verif::log(108, 1, 0);
         loop {
+            #[cfg(egglog_verif)]
+            crate::verif::point(5);
             match done.try_recv() {
                 Ok(()) => break,
                 Err(crossbeam::channel::TryRecvError::Empty) => {}
@@ -465,8 +473,12 @@ impl ThreadPoolState {
                 }
             }
 
+            #[cfg(egglog_verif)]
+            crate::verif::point(6);
             match receiver.try_recv() {
                 Ok(job) => {
+                    #[cfg(egglog_verif)]
+                    crate::verif::log(105, 0, 0);
                     job();
                     continue;
                 }
@@ -477,6 +489,8 @@ impl ThreadPoolState {
                 }
             }
 
+            #[cfg(egglog_verif)]
+            crate::verif::point(7);
             select_biased! {
                 recv(done) -> message => {
                     expect_scope_completion(message);
@@ -710,10 +724,14 @@ impl<'scope> Scope<'scope> {
             if let Err(payload) = result {
                 scope.state.record_panic(payload);
             }
+            #[cfg(egglog_verif)]
+            crate::verif::point(2);
             scope.state.complete_one();
         });
 
         self.state.expect_one();
+        #[cfg(egglog_verif)]
+        crate::verif::point(1);
         // SAFETY: every erased job records completion in the scope state, and
         // `Scope::complete_root_and_wait` waits for all expected completions
         // before `ThreadPool::scope` returns.
@@ -721,6 +739,8 @@ impl<'scope> Scope<'scope> {
     }
 
     fn complete_root_and_wait(&self) {
+        #[cfg(egglog_verif)]
+        crate::verif::point(4);
         if !self.state.complete_one() {
             // SAFETY: the scope is created from a live `ThreadPoolState`, and
             // `ThreadPool::drop` joins all workers before dropping that boxed
@@ -737,6 +757,8 @@ struct ScopeState {
     done_sender: Sender<()>,
     done_receiver: Receiver<()>,
     panic: Mutex<Option<PanicPayload>>,
+    #[cfg(egglog_verif)]
+    vid: u64,
 }
 
 impl ScopeState {
@@ -747,20 +769,43 @@ impl ScopeState {
             done_sender,
             done_receiver,
             panic: Mutex::new(None),
+            #[cfg(egglog_verif)]
+            vid: {
+                let vid = crate::verif::fresh_id();
+                crate::verif::log(107, vid, 0);
+                vid
+            },
         }
     }
 
     fn expect_one(&self) {
+        #[cfg(egglog_verif)]
+        {
+            let previous = self.completion.expect_one();
+            crate::verif::log(101, self.vid, previous);
+        }
+        #[cfg(not(egglog_verif))]
         self.completion.expect_one();
     }
 
     fn complete_one(&self) -> bool {
+        // The scope (and with it `self`) may be destroyed as soon as the last
+        // completion is visible, so the hook reads its id beforehand.
+        #[cfg(egglog_verif)]
+        let vid = self.vid;
         let previous = self.completion.complete_one();
+        #[cfg(egglog_verif)]
+        crate::verif::log(102, vid, previous);
         let completed = completed(previous) + 1;
         let expected = expected(previous);
         debug_assert!(completed <= expected);
 
         if completed == expected {
+            #[cfg(egglog_verif)]
+            {
+                crate::verif::point(3);
+                crate::verif::log(103, vid, 0);
+            }
             // Keep the channel alive while signaling completion. Once the
             // message is visible, the waiting root may receive it and drop the
             // `ScopeState` before `try_send` returns on this worker.
@@ -800,6 +845,28 @@ impl AtomicCounts {
         Self(AtomicU64::new(1 << EXPECTED_SHIFT))
     }
 
+    #[cfg(egglog_verif)]
+    fn expect_one(&self) -> u64 {
+        loop {
+            let current = self.0.load(Ordering::Acquire);
+            let expected = expected(current);
+            assert!(
+                expected < u32::MAX,
+                "thread pool scope launched more than u32::MAX tasks"
+            );
+
+            let next = current + (1 << EXPECTED_SHIFT);
+            if self
+                .0
+                .compare_exchange_weak(current, next, Ordering::AcqRel, Ordering::Acquire)
+                .is_ok()
+            {
+                return current;
+            }
+        }
+    }
+
+    #[cfg(not(egglog_verif))]
     fn expect_one(&self) {
         loop {
             let current = self.0.load(Ordering::Acquire);
@@ -954,6 +1021,11 @@ fn spawn_worker(receiver: Receiver<Job>, pool: ThreadPoolStatePtr) -> JoinHandle
         install_pool(pool, || {
             install_background_worker(|| {
                 for job in receiver {
+                    #[cfg(egglog_verif)]
+                    {
+                        crate::verif::point(8);
+                        crate::verif::log(104, 0, 0);
+                    }
                     job();
                 }
             });
